@@ -6,6 +6,7 @@ package main
 // request.
 
 import (
+	"bytes"
 	"crypto/sha256"
 	"encoding/hex"
 	"encoding/json"
@@ -14,6 +15,7 @@ import (
 	"strings"
 
 	"github.com/btcsuite/btcd/btcec/v2"
+	"github.com/btcsuite/btcd/wire"
 	"github.com/elementsproject/peerswap/messages"
 	"github.com/elementsproject/peerswap/onchain"
 	"github.com/elementsproject/peerswap/swap"
@@ -34,6 +36,7 @@ type Ctx struct {
 	feePayreq   string
 	openingHex  string // what the watcher will deliver when the peer is maker
 	openingTxid string
+	openWant    *swap.OpeningParams // what the last announced opening transaction should pay to (C01 ground truth)
 	log         []string
 	panics      []string
 }
@@ -111,6 +114,32 @@ func (c *Ctx) chainSim() *simChain {
 		return c.w.lbtc
 	}
 	return c.w.btc
+}
+
+// openingPays: the transaction has an output of the agreed amount to the script the last announcement should be
+// paying to (computed here, not asked of the node's validator).
+func (c *Ctx) openingPays(txHex string) bool {
+	if c.openWant == nil {
+		return false
+	}
+	raw, err := hex.DecodeString(txHex)
+	if err != nil {
+		return false
+	}
+	tx := wire.NewMsgTx(2)
+	if tx.Deserialize(bytes.NewReader(raw)) != nil {
+		return false
+	}
+	want, err := c.chainSim().outputScript(c.openWant, c.openWant.CSV)
+	if err != nil {
+		return false
+	}
+	for _, o := range tx.TxOut {
+		if o.Value == int64(c.openWant.Amount) && bytes.Equal(o.PkScript, want) {
+			return true
+		}
+	}
+	return false
 }
 
 // lastSent returns the payload of the last message of the given type the node sent.
@@ -284,6 +313,10 @@ func (c *Ctx) Step(step string) string {
 			txHex = "00"
 		}
 		c.openingHex, c.openingTxid = txHex, txid
+		// what was announced, judged independently of the node (C01): does the transaction contain an output of the
+		// agreed amount to the script of (node's key, peer's key, this invoice's hash, the chain's CSV)?
+		c.openWant = &swap.OpeningParams{TakerPubkey: c.nodePubkey(), MakerPubkey: hex.EncodeToString(c.peerKey.PubKey().SerializeCompressed()), ClaimPaymentHash: c.claimHash, Amount: openSat, CSV: c.csvFor()}
+		w.note(Obs{Kind: "announce", A: map[string]string{"hash": c.claimHash[:8], "msat": fmt.Sprint(msat), "msatok": fmt.Sprint(msat == claimSat*1000), "cltv": fmt.Sprint(cltv), "txok": fmt.Sprint(c.openingPays(txHex))}})
 		bk := ""
 		if c.chain == "lbtc" {
 			bk = hex.EncodeToString(detKey("blinding").Serialize())
@@ -327,6 +360,7 @@ func (c *Ctx) Step(step string) string {
 			return "no-callback"
 		}
 		var err error
+		w.note(Obs{Kind: "confirmcb", A: map[string]string{"err": fmt.Sprint(a["err"] != ""), "hash": c.claimHash[:min(8, len(c.claimHash))], "txok": fmt.Sprint(c.openingPays(c.openingHex))}})
 		if a["err"] != "" {
 			err = ch.confCb(c.id, "", fmt.Errorf("sim watcher: payment window closed"))
 		} else {
